@@ -124,6 +124,13 @@ def compare_blocks_to_tables(blocks, tables, names, kinds, numbered_expected=Non
                 if not all(star.is_numeric_token(x) for x in toks):
                     i = [star.is_numeric_token(x) for x in toks].index(False)
                     return {"what": "non-numeric token in numeric column", "block": bi, "column": c, "row": i, "file": toks[i]}
+                if k == "int":
+                    gi = [int(float(x)) if not star.INT_RE.match(x) else int(x) for x in toks]
+                    ei = [int(v) for v in t[c].tolist()]
+                    if gi != ei:
+                        i = [a == b for a, b in zip(gi, ei)].index(False)
+                        return {"what": "integer cell", "block": bi, "column": c, "row": i, "file": toks[i], "expected": ei[i]}
+                    continue
                 got = np.array([float(x) for x in toks]) if toks else np.zeros(0)
                 exp = t[c].to_numpy(dtype=float)
                 ok = num_close(got, exp, TOL_ABS if k == "float" else 0.0, TOL_REL if k == "float" else 0.0)
@@ -160,6 +167,12 @@ def compare_frames_to_blocks(frames, specs, blocks):
             else:
                 if not pd.api.types.is_numeric_dtype(col.dtype) or col.dtype.kind in "Ob":
                     return {"what": "numeric column not read as numbers", "block": bi, "column": c, "dtype": str(col.dtype), "tokens": toks[:4]}
+                if kind == "int" and all(abs(int(x)) < 2 ** 63 for x in toks):
+                    if col.dtype.kind not in "iu" or [int(v) for v in col.tolist()] != [int(x) for x in toks]:
+                        vals = col.tolist()
+                        i = ([int(a) == int(b) for a, b in zip(vals, toks)] + [False]).index(False) if col.dtype.kind in "iuf" else 0
+                        return {"what": "integer cell", "block": bi, "column": c, "row": i, "read": repr(vals[i]) if i < len(vals) else None, "token": toks[min(i, len(toks) - 1)], "dtype": str(col.dtype)}
+                    continue
                 exp = np.array([float(x) for x in toks])
                 got = col.to_numpy(dtype=float)
                 ok = np.abs(got - exp) <= 1e-12 * np.abs(exp) + 1e-300
@@ -247,7 +260,7 @@ def setup(ctx):
 
 
 # ---- generators ---------------------------------------------------------------------------------
-TEXT_POOL = ["000012@/a/b.mrcs", "opticsGroup1", "TS_01/7", "Extract/job012/Tomograms/TS_3/1.mrc", "A", "B", "abc", "x1y2",
+TEXT_POOL = ['opticsGroup"A"', "tomo_2'bin4'.mrc", 'a"b', "it's", "x,y", "a;b", "k=v", "[1]", "(2)", "{3}", "50%", "a|b", "q?", "a&b", "~x", "a\\b", "<t>", "$1", "!x", "*", "a:b", "000012@/a/b.mrcs", "opticsGroup1", "TS_01/7", "Extract/job012/Tomograms/TS_3/1.mrc", "A", "B", "abc", "x1y2",
              "tomo-7", "1.5x", "e5", "1e", "--3", "3.4.5", "file.name.ext", "12@stack", "K3", "+", "-", "..", "1,5", "0x1F"]
 REL_NAMES = ["rlnCoordinateX", "rlnCoordinateY", "rlnCoordinateZ", "rlnAngleRot", "rlnAngleTilt", "rlnAnglePsi", "rlnMicrographName",
              "rlnImageName", "rlnOriginX", "rlnOriginY", "rlnOriginZ", "rlnClassNumber", "rlnRandomSubset", "rlnCtfImage",
@@ -266,7 +279,7 @@ def gen_text_tokens(rng, n):
         if r < 0.3:
             toks[j] = "%06d@/p/%d.mrcs" % (rng.integers(0, 10 ** 6), rng.integers(0, 99))
         elif r < 0.4:
-            toks[j] = "".join(rng.choice(list("abcXYZ_/.-@0123456789"), size=int(rng.integers(1, 14))))
+            toks[j] = "".join(rng.choice(list("abcXYZ_/.-@0123456789\"',;=[](){}%|?&~<>$!*:+"), size=int(rng.integers(1, 14))))
             if toks[j].startswith("_") or star.bad_text_token(toks[j]):
                 toks[j] = "t" + toks[j].replace("#", "")
         elif r < 0.5:
@@ -319,8 +332,12 @@ def gen_tables(rng, cls, big):
             if r < ptext:
                 d[c] = gen_text_tokens(rng, nrows)
             elif r < ptext + 0.25:
-                hi = 10 ** int(rng.integers(1, 16))
+                hi = 10 ** int(rng.integers(1, 19))
                 d[c] = rng.integers(-hi, hi, nrows).astype(np.int64)
+                if nrows and rng.random() < 0.3:
+                    bigvals = np.array([2 ** 53 + 1, -(2 ** 53) - 3, 2 ** 63 - 1, -(2 ** 63) + 1, 1727481600123456789, 9007199254740993], dtype=np.int64)
+                    m = rng.random(nrows) < 0.4
+                    d[c][m] = rng.choice(bigvals, int(m.sum()))
             else:
                 d[c] = gen_float_col(rng, nrows, cls == "tables_rounding" or rng.random() < 0.3)
         t = pd.DataFrame(d, columns=cols)
@@ -404,7 +421,7 @@ def gen_text(rng, cls):
                 cols.append(gen_text_tokens(rng, nrows))
             elif k == "int":
                 cols.append([(str(rng.choice(["{:d}", "{:+d}", "{:03d}"])) if cls == "text_numeric_forms" else "{:d}").format(int(v))
-                             for v in rng.integers(-10 ** 6, 10 ** 6, nrows)])
+                             for v in (rng.integers(-10 ** 6, 10 ** 6, nrows) if rng.random() < 0.7 else rng.integers(-2 ** 62, 2 ** 62, nrows))])
             else:
                 vals = gen_float_col(rng, nrows, True)
                 if cls == "text_numeric_forms":
@@ -493,8 +510,10 @@ def run_case(ctx, case):
                         if not pd.api.types.is_numeric_dtype(rf[c].dtype):
                             w = {"what": "numeric column came back as text", "block": bi, "column": c}
                             break
-                        okv = num_close(rf[c].to_numpy(dtype=float), t[c].to_numpy(dtype=float), TOL_ABS if k == "float" else 0.0,
-                                        TOL_REL if k == "float" else 0.0)
+                        if k == "int":
+                            okv = np.array([int(a) == int(b) for a, b in zip(rf[c].tolist(), t[c].tolist())]) if rf[c].dtype.kind in "iu" else np.zeros(len(t), bool)
+                        else:
+                            okv = num_close(rf[c].to_numpy(dtype=float), t[c].to_numpy(dtype=float), TOL_ABS, TOL_REL)
                         if not okv.all():
                             j = int(np.argmin(okv))
                             w = {"what": "numeric cell", "block": bi, "column": c, "row": j, "read": float(rf[c].iloc[j]), "written": float(t[c].iloc[j])}
